@@ -325,6 +325,7 @@ var verifFixedStatements = []string{
 	"x.y += [1, \"z\"] // tail\n",
 	"/* b1\nb2 */\n",
 	"s = \"e\\\nf\"\n",
+	"blk \"g\\\nh\"\n",
 }
 
 // verifLayoutInput: S statements from the fixed list, with ONE layout feature
